@@ -23,10 +23,15 @@ func VPH_C08_headers() {
 	rich := vp.Param("RICH") == 1
 	hasReal, hasXFF, hasClient, hasTLS := vp.Bool("has-x-real-ip"), vp.Bool("has-xff"), vp.Bool("has-client-ip-header"), vp.Bool("has-tls-header")
 	hasProto, hasPort, hasHost, hasFwd := false, false, false, false
+	cfgTLSHeader := vp.Bool("cfg-tls-header")
 	if rich {
 		hasProto, hasPort, hasHost, hasFwd = vp.Bool("has-xf-proto"), vp.Bool("has-xf-port"), vp.Bool("has-xf-host"), vp.Bool("has-forwarded")
 	} else {
 		vp.Assume(host != "")
+		if cfgTLSHeader {
+			// a forged X-Forwarded-Proto must not decide whether the TLS header is set
+			hasProto = vp.Bool("has-xf-proto")
+		}
 	}
 	if hasReal {
 		realip = vp.String("x-real-ip")
@@ -94,7 +99,7 @@ func VPH_C08_headers() {
 	if vp.Bool("cfg-client-ip-header") {
 		cfg.ClientIPHeader = "X-Client-Ip"
 	}
-	if vp.Bool("cfg-tls-header") {
+	if cfgTLSHeader {
 		cfg.TLSHeader = "X-Tls"
 	}
 	strip := ""
